@@ -124,8 +124,11 @@ fn ver_only_b(p: &[u8]) -> Result<(), std::io::Error> {
 fn ver_default_like(p: &[u8]) -> Result<(), std::io::Error> {
     refverif::well_formed(p).map_err(std::io::Error::other)
 }
-fn calc(_prog: &[u8], _pc: usize, _data: &mut dyn std::any::Any) -> u16 {
-    CALC_VALUE
+/// The calculator looks at the program it is given: frame size = 32 + program length in bytes
+/// (so a stack-usage table computed for another program is visible).
+fn calc(prog: &[u8], _pc: usize, _data: &mut dyn std::any::Any) -> u16 {
+    let _ = CALC_VALUE;
+    (32 + prog.len()) as u16
 }
 
 fn accepts(v: V, p: P) -> bool {
@@ -208,7 +211,7 @@ fn value(p: P, helper: Option<F>, kind: K, offs: u8, calc: bool, pkt: &[u8], eng
         }
         P::L => match eng {
             // the frame size the caller reserved: 256 or the calculator's value
-            Eng::Interp => Exp::Val(vec![if calc { CALC_VALUE as u64 } else { 256 }]),
+            Eng::Interp => Exp::Val(vec![if calc { 32 + prog_bytes(P::L).len() as u64 } else { 256 }]),
             // local calls under the JIT are C07's subject; Cranelift refuses them
             _ => Exp::Any,
         },
@@ -667,6 +670,18 @@ impl Model for ApiModel {
 }
 
 fn cfg_for(tier: Tier, part: usize) -> Cfg {
+    if part == 2 {
+        // stack-usage calculator and the local-call program (interpreter only: frame sizes)
+        return Cfg {
+            kinds: if tier == Tier::Quick { vec![K::NoData, K::Fixed] } else { vec![K::Raw, K::Fixed, K::Mbuff, K::NoData] },
+            progs: vec![P::A, P::L, P::X],
+            verifiers: vec![V::DefaultLike, V::RejectAll],
+            helpers: vec![],
+            calc: true,
+            jit: false,
+            cl: false,
+        };
+    }
     match tier {
         Tier::Quick => Cfg {
             kinds: if part == 0 { vec![K::Raw, K::Fixed, K::Mbuff, K::NoData] } else { vec![K::Fixed, K::Mbuff] },
@@ -773,7 +788,7 @@ pub fn run(s: &mut Sink) {
     s.meta.insert("bound".into(), json!("breadth-first search to the fix-point of the abstract state space (no depth cut); stateright 0.31"));
     s.meta.insert("rule".into(), json!("states = unique abstract VM states found by stateright; transitions = next_state calls, each one a replay of the state's history on a fresh real VM plus the action plus the probe; non-trivial = transitions whose action is not a self-loop"));
     s.meta.insert("assumptions".into(), json!(["two histories reaching the same abstract state behave alike - checked (not assumed) on every edge by the post-state probe", "helpers registered after compiling: either binding accepted (compile-time binding is the documented contract)"]));
-    for part in 0..2usize {
+    for part in 0..3usize {
         if !s.take(part as u64) {
             continue;
         }
